@@ -35,6 +35,10 @@ type KnownFile struct {
 
 var verifDir = "/verif"
 
+// outDir: where evidence and replay files go (VERIF_OUT; default verifDir). Used to
+// try seeded changes in a scratch copy without touching the committed evidence.
+var outDir = ""
+
 func loadKnown() *KnownFile {
 	kf := &KnownFile{}
 	b, err := os.ReadFile(filepath.Join(verifDir, "known_findings.json"))
@@ -87,6 +91,10 @@ func main() {
 	}
 	if d := os.Getenv("VERIF_DIR"); d != "" {
 		verifDir = d
+	}
+	outDir = verifDir
+	if d := os.Getenv("VERIF_OUT"); d != "" {
+		outDir = d
 	}
 	t0 := time.Now()
 	P, err := loadProg(*repo, []string{filepath.Join(verifDir, "contracts")})
@@ -252,13 +260,13 @@ func writeBrokenEvidence(prop, tier, msg string, wall float64) {
 }
 
 func writeEvidence(prop string, ev *evidence) {
-	os.MkdirAll(filepath.Join(verifDir, "evidence"), 0o755)
+	os.MkdirAll(filepath.Join(outDir, "evidence"), 0o755)
 	b, _ := json.MarshalIndent(ev, "", " ")
-	os.WriteFile(filepath.Join(verifDir, "evidence", prop+".json"), append(b, '\n'), 0o644)
+	os.WriteFile(filepath.Join(outDir, "evidence", prop+".json"), append(b, '\n'), 0o644)
 }
 
 func writeTextReplay(prop, name, text string) string {
-	dir := filepath.Join(verifDir, "replays", prop)
+	dir := filepath.Join(outDir, "replays", prop)
 	os.MkdirAll(dir, 0o755)
 	n := sanitize(name)
 	if len(n) > 150 {
